@@ -1000,6 +1000,12 @@ func unmarshal(r *http.Request, data []byte, v interface{}) error {
 			_, err := unmarshaler.UnmarshalMsg(data)
 			return err
 		}
+		// The generic decoder sizes maps from the element count it reads, before
+		// it has seen a single element. Check that the document is well-formed
+		// first: a count the body cannot hold fails here without allocating.
+		if _, err := msgp.Skip(data); err != nil {
+			return err
+		}
 		decoder := msgpack.NewDecoder(bytes.NewReader(data))
 		decoder.UseLooseInterfaceDecoding(true)
 		return decoder.Decode(v)
